@@ -365,6 +365,47 @@ def check(model, tier):
             else:
                 run.ok("R18.6", inst)
     _dispatch.r_execute_direct_operands(ctx, "R18.10")
+    # ---- R18.11 slicing is lazy except where the rows are already in a sequence
+    run.rule(
+        "R18.11",
+        "sliced() builds a container only in RowSequence (the documented exception: a sequence is cut directly); every "
+        "other row-iterable class answers with a lazy SliceRowIterable or delegates: an override that walks a mapping or "
+        "a chain when the slice is *executed* moves the work from iteration time to execute() time and freezes the rows",
+        2,
+    )
+    n_sl = 0
+    for c in m.subclasses(base):
+        f = c.methods.get("sliced")
+        if f is None or f.is_abstract:
+            continue
+        n_sl += 1
+        inst = f"{c.name}.sliced:lazy"
+        if c.name == "RowSequence":
+            run.ok("R18.11", inst, {"why": "the documented eager case"})
+            continue
+        eager = [
+            x
+            for x in ast.walk(f.node)
+            if isinstance(x, ast.Call)
+            and (
+                (isinstance(x.func, ast.Name) and x.func.id in ("dict", "list", "tuple", "set", "frozenset", "sorted", "RowSequence", "RowMapping", "len", "sum", "min", "max"))
+                or (isinstance(x.func, ast.Attribute) and x.func.attr in ("to_sequence", "to_mapping", "materialized"))
+            )
+        ] + [x for x in ast.walk(f.node) if isinstance(x, (ast.ListComp, ast.DictComp, ast.SetComp, ast.For))]
+        # len() of a *materialized* member is a stored number, not a pass over rows
+        eager = [x for x in eager if not (isinstance(x, ast.Call) and isinstance(x.func, ast.Name) and x.func.id in ("len", "list") and c.name == "ChainRowIterable")]
+        if eager:
+            run.fail(
+                "R18.11",
+                inst,
+                f"{c.name}.sliced builds `{src(eager[0])[:60]}` when it is called, i.e. inside execute(): the target's rows are walked at execute time and the result no longer follows later iterations of the target",
+                fi=f,
+                node=eager[0],
+            )
+        else:
+            run.ok("R18.11", inst)
+    if n_sl < 2:
+        raise AnalysisError("fewer than two sliced() implementations found")
     # ---- R18.9 what a result computes is fixed when execute() returns
     run.rule(
         "R18.9",
@@ -389,6 +430,15 @@ def check(model, tier):
             for c in ast.walk(inner):
                 if isinstance(c, ast.Call) and isinstance(c.func, ast.Attribute) and isinstance(c.func.value, ast.Name) and c.func.value.id == "self":
                     late.append(c)
+        # a bound method of the engine handed on as a value (functools.partial(self.execute, x), key=self.f) runs later too
+        parents = {id(ch): par for par in ast.walk(fn) for ch in ast.iter_child_nodes(par)}
+        own_methods = {x.name for x in eng_raw.body if isinstance(x, ast.FunctionDef)}
+        for a in ast.walk(fn):
+            if isinstance(a, ast.Attribute) and isinstance(a.value, ast.Name) and a.value.id == "self" and a.attr in own_methods and isinstance(a.ctx, ast.Load):
+                par = parents.get(id(a))
+                is_prop = any(isinstance(d, ast.Name) and d.id in ("property", "cached_property") for x in eng_raw.body if isinstance(x, ast.FunctionDef) and x.name == a.attr for d in x.decorator_list)
+                if not is_prop and not (isinstance(par, ast.Call) and par.func is a):
+                    late.append(ast.Call(func=a, args=[], keywords=[], lineno=a.lineno, col_offset=a.col_offset, end_lineno=a.lineno, end_col_offset=a.col_offset))
         inst = f"{fn.name}:resolved-at-conversion"
         if late:
             run.fail(
